@@ -45,4 +45,62 @@ theorem copy_records_nothing (cfg : Cfg) (side : Side) (name : Path) (info : Inf
   ⟨copyFile_keeps cfg side name info src w, copyDir_keeps cfg side name info w,
    copySymlink_keeps cfg .base side name info w⟩
 
+/-! ### crash points -/
+
+/-- the fault plan "the process dies after `n` primitive calls": every later primitive, on either
+filesystem, path-taking or through a handle, is refused and nothing reaches the disk any more -/
+def crashPlan (n : Nat) : List Fault := [⟨⟨.base, crashMethod, []⟩, n⟩]
+
+/-- once `n` calls have been logged, a world running under `crashPlan n` is crashed … -/
+theorem crashPlan_crashed (w : World) (n : Nat) (h : w.faults = crashPlan n) (hn : n ≤ w.trace.length) :
+    crashed w = true := by
+  unfold crashed; rw [h]; simp [crashPlan, hn]
+
+/-- … and in a crashed world every primitive is refused without touching the disk, and the world
+stays crashed (the disk is frozen in its state at the crash point) -/
+theorem crashed_frozen (cfg : Cfg) (side : Side) (c : Call) (w : World) (h : crashed w = true) :
+    (primCall cfg side c w).2 = .error .io ∧ (primCall cfg side c w).1.fs = w.fs ∧
+      crashed (primCall cfg side c w).1 = true := by
+  have hstill : ∀ (e : Event) (sn : List (Sig × Nat)),
+      crashed { w with seen := sn, trace := e :: w.trace } = true := by
+    intro e sn
+    unfold crashed at h ⊢
+    simp only [List.any_eq_true] at h ⊢
+    obtain ⟨f, hf, hc⟩ := h
+    refine ⟨f, hf, ?_⟩
+    simp only [Bool.and_eq_true, decide_eq_true_eq] at hc ⊢
+    exact ⟨hc.1, by simp only [List.length_cons]; omega⟩
+  unfold primCall
+  split
+  · simp [h]
+  · simp only [account, h, Bool.or_true]
+    refine ⟨by simp, by simp, ?_⟩
+    exact hstill _ _
+
+theorem crashed_frozen_handle (wh : WHandle) (method : String) (extra : List Path) (mu : Bool) (w : World)
+    (h : crashed w = true) :
+    (primH wh method extra mu w).2 = .error .io ∧ (primH wh method extra mu w).1.fs = w.fs := by
+  unfold primH account
+  simp [h]
+
+/-- T02.crash (link-free fragment, crash points inside operations): let the process die after any
+number `n` of primitive calls of any covered history — in the middle of a copy, of a RemoveAll walk,
+between the backup and the base call.  The disk it leaves behind still satisfies the transaction
+invariant with the tracked map of that moment (`Props.C01.invariant_after_history` holds for every
+fault plan), hence every original is recoverable: Rollback on the frozen disk restores every entry
+of the base below its root. -/
+theorem originals_recoverable_at_every_crash_point_linkfree_partial (bk kk : Key) (hbk : PKey bk) (hkk : PKey kk)
+    (hne1 : bk ≠ []) (hne2 : kk ≠ []) (hd1 : ¬ bk <+: kk) (hd2 : ¬ kk <+: bk)
+    (w : World) (hg : OSGood bk kk w.fs) (hinfos : w.infos = []) (n : Nat) (hplan : w.faults = crashPlan n)
+    (ops : List Op) (hcov : CoveredHist (osCfg bk kk) (osSim bk kk hbk hkk hne1 hne2 hd1 hd2) w ops) :
+    ∀ k, k ≠ [] →
+      ((rollback (osCfg bk kk) { runOps (osCfg bk kk) w ops with faults := [] }).1.fs.get (bk ++ k)).map eraseMt
+        = (w.fs.get (bk ++ k)).map eraseMt :=
+  tx_restores_after_faults (S := osSim bk kk hbk hkk hne1 hne2 hd1 hd2) hg hinfos ops hcov
+
+/-- non-vacuity: the crash plan really crashes the example world once three calls are logged -/
+def exTrace : List Event := [⟨⟨.base, "lstat", []⟩, false, false⟩, ⟨⟨.base, "lstat", []⟩, false, false⟩, ⟨⟨.base, "lstat", []⟩, false, false⟩]
+
+example : crashed ⟨exDisk, [], exTrace, crashPlan 3, []⟩ = true := by decide
+
 end Props.C02
